@@ -23,6 +23,8 @@ typedef struct run_ctx_s {
 	interp_result *res;
 	char *dump; size_t dumpsz; size_t dumppos;
 	size_t hdr;                /* bytes of the tape consumed by the config header */
+	uint8_t faults[8];         /* futex fault vector (SEM family) */
+	char alloc_file[32];
 } run_ctx;
 static run_ctx *G;
 
@@ -81,6 +83,16 @@ static nsync_time dl_time (int64_t d) { return (d < 0 ? nsync_time_no_deadline :
 static const char *dl_name (int k) { static const char *n[] = { "none", "past", "soon", "later" }; return (n[k & 3]); }
 
 #include "fam_mon.inc"
+#include "fam_once.inc"
+#include "fam_ctr.inc"
+#include "fam_note.inc"
+#include "fam_notefree.inc"
+#include "fam_waitn.inc"
+#include "fam_sem.inc"
+#include "fam_ref.inc"
+#include "fam_starve.inc"
+#include "fam_alloc.inc"
+#include "fam_debugbuf.inc"
 #include "fam_misc.inc"
 
 /* ------------------------------------------------------------------ ownership of verdicts */
@@ -152,16 +164,16 @@ typedef struct family_s {
 static const family families[FAM_N] = {
 	/* FAM_MON */    { "MON", mon_setup, mon_quiescence, mon_finish, mon_nontrivial, NULL },
 	/* FAM_LOCK */   { "LOCK", mon_setup, mon_quiescence, mon_finish, mon_nontrivial, NULL },
-	/* FAM_ONCE */   { "ONCE", NULL, NULL, NULL, NULL, NULL },
-	/* FAM_NOTE */   { "NOTE", NULL, NULL, NULL, NULL, NULL },
-	/* FAM_CTR */    { "CTR", NULL, NULL, NULL, NULL, NULL },
-	/* FAM_WAITN */  { "WAITN", NULL, NULL, NULL, NULL, NULL },
-	/* FAM_SEM */    { "SEM", NULL, NULL, NULL, NULL, NULL },
-	/* FAM_REF */    { "REF", NULL, NULL, NULL, NULL, NULL },
-	/* FAM_ALLOC */  { "ALLOC", NULL, NULL, NULL, NULL, NULL },
-	/* FAM_STARVE */ { "STARVE", NULL, NULL, NULL, NULL, NULL },
-	/* FAM_DEBUGBUF */ { "DEBUGBUF", NULL, NULL, NULL, NULL, NULL },
-	/* FAM_NOTEFREE */ { "NOTEFREE", NULL, NULL, NULL, NULL, NULL },
+	/* FAM_ONCE */   { "ONCE", once_setup, once_quiescence, once_finish, once_nontrivial, NULL },
+	/* FAM_NOTE */   { "NOTE", nt_setup, nt_quiescence, nt_finish, nt_nontrivial, NULL },
+	/* FAM_CTR */    { "CTR", ctr_setup, ctr_quiescence, ctr_finish, ctr_nontrivial, NULL },
+	/* FAM_WAITN */  { "WAITN", wn_setup, wn_quiescence, wn_finish, wn_nontrivial, NULL },
+	/* FAM_SEM */    { "SEM", sm_setup, sm_quiescence, sm_finish, sm_nontrivial, sm_tune },
+	/* FAM_REF */    { "REF", rf_setup, rf_quiescence, rf_finish, rf_nontrivial, NULL },
+	/* FAM_ALLOC */  { "ALLOC", al_setup, al_quiescence, al_finish, al_nontrivial, NULL },
+	/* FAM_STARVE */ { "STARVE", sv_setup, sv_quiescence, sv_finish, sv_nontrivial, sv_tune },
+	/* FAM_DEBUGBUF */ { "DEBUGBUF", db_setup, db_quiescence, db_finish, db_nontrivial, db_tune },
+	/* FAM_NOTEFREE */ { "NOTEFREE", nf_setup, nf_quiescence, nf_finish, nf_nontrivial, NULL },
 };
 
 /* Which family a property's check runs by default when the tape's family byte is b. */
@@ -169,9 +181,18 @@ static int pick_family (int prop, unsigned b) {
 	switch (prop) {
 	case P_C01: return ((b % 4) == 0 ? FAM_LOCK : FAM_MON);
 	case P_C02: return ((b % 2) == 0 ? FAM_LOCK : FAM_MON);
+	case P_C03: { static const int f[] = { FAM_MON, FAM_LOCK, FAM_ONCE, FAM_NOTE, FAM_CTR, FAM_WAITN, FAM_MON, FAM_WAITN }; return (f[b % 8]); }
 	case P_C04: case P_C05: case P_C06: return (FAM_MON);
-	case P_C16: return ((b % 3) == 0 ? FAM_LOCK : FAM_MON);
-	case P_C03: return (FAM_MON);
+	case P_C07: return (FAM_ONCE);
+	case P_C08: return (FAM_NOTE);
+	case P_C09: return (FAM_NOTEFREE);
+	case P_C10: return (FAM_CTR);
+	case P_C11: return ((b % 4) == 0 ? FAM_MON : FAM_WAITN);
+	case P_C12: return (FAM_SEM);
+	case P_C13: { static const int f[] = { FAM_REF, FAM_WAITN, FAM_MON, FAM_REF }; return (f[b % 4]); }
+	case P_C14: return (FAM_STARVE);
+	case P_C16: { static const int f[] = { FAM_LOCK, FAM_MON, FAM_DEBUGBUF, FAM_MON }; return (f[b % 4]); }
+	case P_C19: return (FAM_ALLOC);
 	default: return (FAM_MON);
 	}
 }
@@ -221,11 +242,32 @@ static void run_common (run_ctx *c, rt_config *cfg, interp_result *res) {
 	hooks.finish = f->finish;
 	hooks.arg = c;
 	c->res = res;
-	rt_execute (cfg, &hooks, &res->v, &res->st);
+	if (c->family == FAM_ALLOC) {
+		/* fail every allocation made from the constructors' own call sites in turn (exhaustive per script) */
+		int k, total, nontriv = 0;
+		cfg->alloc_fail_k = 0;
+		cfg->alloc_fail_file = "note.c|counter.c";
+		cfg->freeze_at = -1;
+		rt_execute (cfg, &hooks, &res->v, &res->st);
+		total = (int) res->st.allocs_matching;
+		res->sub_evaluations = 1;
+		for (k = 1; k <= total && res->v.kind == RT_V_NONE; k++) {
+			cfg->alloc_fail_k = k;
+			rt_execute (cfg, &hooks, &res->v, &res->st);
+			G = c;
+			res->sub_evaluations++;
+			if (al_nontrivial (c, &res->st)) nontriv++;
+			if (c->dump != NULL && res->v.kind != RT_V_NONE) D ("failing allocation %d of %d from note.c/counter.c:\n", k, total);
+		}
+		res->sub_nontrivial = nontriv;
+	} else {
+		rt_execute (cfg, &hooks, &res->v, &res->st);
+	}
 	G = c;   /* statics were restored at the top of rt_execute and set again by setup; keep for classification */
 	res->family = c->family;
 	res->owned = verdict_owned (c, &res->v);
 	res->nontrivial = (f->nontrivial != NULL) ? f->nontrivial (c, &res->st) : 0;
+	if (c->family == FAM_ALLOC) res->nontrivial = (res->sub_nontrivial > 0);
 	fam_fill_result (c, res);
 	if (c->dump != NULL) {
 		D ("verdict: kind=%d sig=%s owned=%d\n  %s\n", res->v.kind, res->v.sig, res->owned, res->v.msg);
